@@ -304,3 +304,5 @@ func (e *Env) DesiredFromTrace(t *SyncTrace) ([]map[string]any, bool) {
 	}
 	return out, true
 }
+
+func stackNow() string { return string(debug.Stack()) }
